@@ -117,6 +117,7 @@ PAYLOADS = [
     b"mail admin@corp-mail.example.org the loot",
     b"C:\\Users\\Public\\stage2\\loader.dll -silent",
     b"nothing interesting in this payload at all",
+    b"Send the Email report with WebRequest and wait for GetResponse from http://evil.example.com/up",    # keyword hits whose type ends in 'string' (network.string lists): unchanged, never re-quoted
     b"WScript.Shell run calc.exe then exit quietly",
     b"a+b = c + d; x>>>y ??? http://evil.example.com/a+b?q=1+2 ~~~ done",      # base64 of this uses '+' and '/'; the text itself has '+'
     b"\xfb\xef\xbe ping 10.20.30.40 \xff\xfe\xfd",
